@@ -95,3 +95,66 @@ def forward(cfg: CFG, init: Any, transfer: Callable[[Node, Any], Any], join: Cal
                 IN[m.id] = new
                 work.append(m)
     return IN
+
+
+def _assigned_names(node: Node) -> Set[str]:
+    a = node.ast
+    out: Set[str] = set()
+    if a is None:
+        return out
+    targets: List[ast.AST] = []
+    if node.kind == "stmt":
+        if isinstance(a, ast.Assign):
+            targets = list(a.targets)
+        elif isinstance(a, (ast.AugAssign, ast.AnnAssign)):
+            targets = [a.target]
+        elif isinstance(a, (ast.Import, ast.ImportFrom)):
+            for al in a.names:
+                out.add((al.asname or al.name).split(".")[0])
+        elif isinstance(a, (ast.FunctionDef, ast.AsyncFunctionDef, ast.ClassDef)):
+            out.add(a.name)
+    elif node.kind == "for":
+        targets = [a.target]
+    elif node.kind == "with":
+        targets = [i.optional_vars for i in a.items if i.optional_vars is not None]
+    elif node.kind == "handler" and a.name:
+        out.add(a.name)
+    for t in targets:
+        for n in ast.walk(t):
+            if isinstance(n, ast.Name) and isinstance(n.ctx, (ast.Store, ast.Del)):
+                out.add(n.id)
+    # walrus inside expressions
+    if node.kind in ("stmt", "test"):
+        for n in ast.walk(a):
+            if isinstance(n, ast.NamedExpr) and isinstance(n.target, ast.Name):
+                out.add(n.target.id)
+    return out
+
+
+def reaching_defs(cfg: CFG, var: str, blocked_edges: Iterable[Tuple[int, Optional[str]]] = (),
+                  ignore_labels: Iterable[str] = ()) -> Dict[int, frozenset]:
+    """IN sets of definition node ids of ``var`` (-1 = function parameter / undefined) per CFG node id."""
+
+    def transfer(n: Node, st: frozenset) -> frozenset:
+        if var in _assigned_names(n):
+            # an augmented assignment both uses and defines; treat it as a new definition
+            return frozenset({n.id})
+        return st
+
+    def join(a: frozenset, b: frozenset) -> frozenset:
+        return a | b
+
+    return forward(cfg, frozenset({-1}), transfer, join, blocked_edges=blocked_edges, ignore_labels=ignore_labels)
+
+
+def def_value(cfg: CFG, def_id: int, var: str) -> Optional[ast.AST]:
+    """The expression assigned by a plain ``var = expr`` definition node (None for other kinds)."""
+    if def_id < 0:
+        return None
+    n = cfg.nodes[def_id]
+    a = n.ast
+    if n.kind == "stmt" and isinstance(a, ast.Assign) and any(isinstance(t, ast.Name) and t.id == var for t in a.targets):
+        return a.value
+    if n.kind == "stmt" and isinstance(a, ast.AnnAssign) and isinstance(a.target, ast.Name) and a.target.id == var:
+        return a.value
+    return None
